@@ -568,14 +568,14 @@ impl ExclusivePublication {
         }
 
         let next_index = log_buffer_descriptor::next_partition_index(self.active_partition_index);
-        let next_term_id = self.term_id + 1;
+        let next_term_id = self.term_id.wrapping_add(1);
 
         self.active_partition_index = next_index;
         self.term_offset = 0;
         self.term_id = next_term_id;
         self.term_begin_position += term_length as i64;
 
-        let term_count = next_term_id - self.initial_term_id;
+        let term_count = next_term_id.wrapping_sub(self.initial_term_id);
 
         log_buffer_descriptor::initialize_tail_with_term_id(&self.log_meta_data_buffer, next_index, next_term_id);
         log_buffer_descriptor::set_active_term_count_ordered(&self.log_meta_data_buffer, term_count);
